@@ -12,6 +12,8 @@
 //!   unref s= n=                             parents:null
 //!   del s= n=                               delete row n
 //!   refdel s= n= m=                         delete the reference parents n -> m
+//!   stream s= mode=<acked|early|dropped> [keep=<k>] rows=<n>:<r>:<e>,...   (`dropped`: the result receiver is dropped
+//!                                           after k acknowledgements and the caller keeps streaming)
 //!   stream s= mode=<acked|early> rows=<n>:<r>:<e>,...   mutation stream creating rows; `acked`: closed after the
 //!                                           acknowledgements; `early`: the reader thread is held so that the close is processed first
 //!                                           (`W` in the observation = the point where the mutations reach the writer)
@@ -68,6 +70,12 @@ pub struct World {
     pub allow_free: bool,
     /// an expected event did not arrive: the remaining operations of the case are not run
     pub dead: bool,
+    /// property-level findings of the harness-side oracle (written to `<out>.oracle`)
+    pub oracle: Vec<(String, String)>,
+    /// per room: the user keys of every acknowledged room mutation (creation included)
+    pub room_users: BTreeMap<u64, BTreeSet<Vec<u8>>>,
+    /// the operation being executed (for the oracle's messages and signatures)
+    pub cur_op: String,
 }
 
 fn site_key(case: u64, s: u64) -> Vec<u8> {
@@ -93,6 +101,9 @@ impl World {
             dummy: 0,
             allow_free: false,
             dead: false,
+            oracle: vec![],
+            room_users: BTreeMap::new(),
+            cur_op: String::new(),
         };
         w.set_clock();
         for s in 0..nsites {
@@ -234,6 +245,81 @@ impl World {
             .await
     }
 
+    /// Harness-side oracle, on the implementation's observations only:
+    /// * every cell whose stored content LOST a row version during the operation (the day a re-dated row leaves,
+    ///   the room a moved row leaves) must be named by a data-changed event of the operation, like the cells that gain one;
+    /// * at the owning site, the last room-modified event of a room carries every acknowledged change of the room.
+    fn post_checks(&mut self, s: usize, evs: &[RawEv], snap: &HashSet<(Vec<u8>, String, i64, Vec<u8>)>, room_ops: bool) {
+        let start = evs.iter().rposition(|e| matches!(e, RawEv::Mark)).map(|i| i + 1).unwrap_or(0);
+        let mut announced: HashSet<(String, u64, i64)> = HashSet::new();
+        for e in &evs[start..] {
+            if let RawEv::Data(cs) = e {
+                for (r, en, d) in cs {
+                    let ei = ENT_NAMES.iter().position(|x| x == en).map(|i| i as u64).unwrap_or(u64::MAX);
+                    announced.insert((r.clone(), ei, *d));
+                }
+            }
+        }
+        let mut lost: BTreeSet<(String, u64, i64)> = BTreeSet::new();
+        for (room, ent, date, sig) in &self.sites[s].snap {
+            if !snap.contains(&(room.clone(), ent.clone(), *date, sig.clone())) {
+                let mut u = [0u8; 16];
+                if room.len() == 16 {
+                    u.copy_from_slice(room);
+                }
+                let day = BASE_DAY + (*date - BASE_DAY).div_euclid(DAY_MS) * DAY_MS;
+                lost.insert((b64(&u), self.short_of.get(ent).copied().unwrap_or(u64::MAX), day));
+            }
+        }
+        let is_move = self.cur_op.starts_with("upd ") && self.cur_op.contains(" r=");
+        for (room, ent, day) in lost {
+            if !announced.contains(&(room.clone(), ent, day)) {
+                let sig = if is_move { "room-move-old-room-unannounced" } else { "cell-losing-content-unannounced" };
+                let cell = self.cell_of(&room, Some(ent), day);
+                self.oracle.push((
+                    sig.to_string(),
+                    format!("{}: cell {} lost a row version but no data-changed event of the operation names it", self.cur_op, cell),
+                ));
+            }
+        }
+        if room_ops {
+            let mut last: HashMap<u64, &discret::verif_hooks::database::room::Room> = HashMap::new();
+            for e in evs {
+                if let RawEv::Room(room) = e {
+                    if let Some(rn) = self.room_of_uid.get(&b64(&room.id)) {
+                        last.insert(*rn, room);
+                    }
+                }
+            }
+            let mut found = vec![];
+            for (rn, room) in last {
+                if self.owner.get(&rn) != Some(&s) {
+                    continue;
+                }
+                let mut have: BTreeSet<Vec<u8>> = BTreeSet::new();
+                for a in room.authorisations.values() {
+                    for k in a.users.keys() {
+                        have.insert(k.clone());
+                    }
+                }
+                let missing = self.room_users.get(&rn).map(|exp| exp.iter().filter(|k| !have.contains(*k)).count()).unwrap_or(0);
+                if missing > 0 {
+                    found.push((
+                        "room-event-misses-acknowledged-change".to_string(),
+                        format!(
+                            "{}: the last room-modified event of room {} lacks {} acknowledged user entr{}",
+                            self.cur_op,
+                            rn,
+                            missing,
+                            if missing == 1 { "y" } else { "ies" }
+                        ),
+                    ));
+                }
+            }
+            self.oracle.extend(found);
+        }
+    }
+
     /// observation of site `s` after an op that requested `n_data` recomputes
     async fn observe(&mut self, s: usize, status: &str, n_data: usize) -> String {
         let got = self.sites[s].inst.collect(n_data, 15_000).await;
@@ -274,6 +360,8 @@ impl World {
                 gained_s.insert(c, self.cell_of(&key, ei, *date));
             }
         }
+        let room_ops = self.cur_op.starts_with("room");
+        self.post_checks(s, &evs, &snap, room_ops);
         self.sites[s].snap = snap;
         let g: Vec<String> = gained.iter().map(|c| gained_s[c].clone()).collect();
         format!("{} ev {} | g {}", status, self.fmt_events(&evs, &installed), g.join(","))
@@ -311,6 +399,7 @@ impl World {
                 self.rooms.insert(r, id);
                 self.room_of_uid.insert(b64(&id), r);
                 self.owner.insert(r, s);
+                self.room_users.insert(r, keys.iter().cloned().collect());
                 if let Some(subs) = ent.sub_nodes.get("authorisations") {
                     self.groups.insert(r, subs[0].node_to_mutate.id);
                 }
@@ -337,7 +426,10 @@ impl World {
             ("k", discret::verif_hooks::security::base64_encode(&k)),
         ]);
         match self.sites[s].inst.svc.mutate_raw(q, Some(p)).await {
-            Ok(_) => ("ok".into(), 1),
+            Ok(_) => {
+                self.room_users.entry(r).or_default().insert(k);
+                ("ok".into(), 1)
+            }
             Err(e) => (format!("err:{}", class(&e)), 1),
         }
     }
@@ -392,9 +484,15 @@ impl World {
         }
     }
 
-    async fn do_stream(&mut self, s: usize, mode: &str, rows: &[(u64, u64, u64)]) -> (String, usize) {
+    async fn do_stream(&mut self, s: usize, mode: &str, keep: usize, rows: &[(u64, u64, u64)]) -> (String, usize) {
         let svc = self.sites[s].inst.svc.clone();
-        let (send, mut recv) = svc.mutation_stream();
+        let (send, recv) = svc.mutation_stream();
+        // `dropped`: a fire-and-forget caller: the result receiver is dropped after `keep` acknowledgements
+        // (before anything is sent when keep = 0) and the caller keeps streaming
+        let mut recv = Some(recv);
+        if mode == "dropped" && keep == 0 {
+            recv = None;
+        }
         let mut status = "ok".to_string();
         let mut ids = vec![];
         // `early`: the (single) reader thread is held until the stream is closed and the recompute it
@@ -417,13 +515,33 @@ impl World {
             None
         };
         let mut pre = vec![];
-        for (n, r, e) in rows {
-            let p = params(&[("r", b64(&self.rooms[r])), ("t", format!("row{} v{}", n, self.tick))]);
+        let mut texts = vec![];
+        for (i, (n, r, e)) in rows.iter().enumerate() {
+            let text = format!("row{} v{}", n, self.tick);
+            if mode == "dropped" && recv.is_none() && i > 0 {
+                // the caller keeps streaming slowly: the previous row is stored before the next one is sent
+                let deadline = std::time::Instant::now() + std::time::Duration::from_secs(5);
+                while self.lookup_by_text(s, &texts[i - 1..i]).await.is_empty() && std::time::Instant::now() < deadline {
+                    tokio::time::sleep(std::time::Duration::from_millis(10)).await;
+                }
+                if i + 1 == rows.len() && i > keep {
+                    // an acknowledgement could not be delivered already: whatever event that triggered is received
+                    // BEFORE the last mutation is sent (nothing comes when the request waits for the end of the stream)
+                    let _ = self.sites[s].inst.wait_data(1, 200).await;
+                    let nsubs = self.sites[s].inst.subs.len();
+                    for k in 0..nsubs {
+                        let mut b = self.sites[s].inst.subs[k].buf.lock().unwrap();
+                        pre.push(b.drain(..).collect::<Vec<RawEv>>());
+                    }
+                }
+            }
+            texts.push(text.clone());
+            let p = params(&[("r", b64(&self.rooms[r])), ("t", text)]);
             if send.send((Self::new_query(*e), Some(p))).await.is_err() {
                 status = "err:stream".into();
             }
-            if mode == "acked" {
-                match recv.recv().await {
+            if mode == "acked" || (mode == "dropped" && recv.is_some()) {
+                match recv.as_mut().unwrap().recv().await {
                     Some(Ok(mq)) => ids.push(Some(mq.mutate_entities[0].node_to_mutate.id)),
                     Some(Err(e)) => {
                         status = format!("err:{}", class(&e));
@@ -431,9 +549,31 @@ impl World {
                     }
                     None => status = "err:stream-closed".into(),
                 }
+                if mode == "dropped" && i + 1 >= keep {
+                    recv = None;
+                }
             }
         }
         drop(send);
+        if mode == "dropped" {
+            // no acknowledgement is read any more: wait for the stream's data event, then until every row is
+            // stored (it is, before the event, when the request follows the last acknowledgement)
+            let early = pre.first().map(|v| v.iter().filter(|e| matches!(e, RawEv::Data(_))).count()).unwrap_or(0);
+            if early == 0 {
+                let _ = self.sites[s].inst.wait_data(1, 15_000).await;
+            }
+            let deadline = std::time::Instant::now() + std::time::Duration::from_secs(5);
+            loop {
+                let found = self.lookup_by_text(s, &texts).await;
+                if found.len() == texts.len() || std::time::Instant::now() > deadline {
+                    while ids.len() < rows.len() {
+                        ids.push(found.get(&texts[ids.len()]).copied());
+                    }
+                    break;
+                }
+                tokio::time::sleep(std::time::Duration::from_millis(20)).await;
+            }
+        }
         if let Some(tx) = stall {
             // the stream's recompute request is answered (one data event) while the reader is held — unless
             // the code orders the request after the acknowledgements, in which case nothing comes until the
@@ -446,9 +586,9 @@ impl World {
             }
             let _ = tx.send(());
         }
-        if mode != "acked" {
+        if mode != "acked" && mode != "dropped" {
             for _ in rows {
-                match recv.recv().await {
+                match recv.as_mut().unwrap().recv().await {
                     Some(Ok(mq)) => ids.push(Some(mq.mutate_entities[0].node_to_mutate.id)),
                     Some(Err(e)) => {
                         status = format!("err:{}", class(&e));
@@ -474,7 +614,42 @@ impl World {
             v.extend(b.drain(..));
             *b = v;
         }
+        // (the events put back in the buffers count for the expected number of data events)
         (status, 1)
+    }
+
+    /// ids of the rows whose `name` is one of `texts` (rows created by a stream whose results were not read)
+    async fn lookup_by_text(&self, s: usize, texts: &[String]) -> HashMap<String, Uid> {
+        let texts: Vec<String> = texts.to_vec();
+        self.sites[s]
+            .inst
+            .read(move |conn| {
+                let mut res = HashMap::new();
+                let mut stmt = conn.prepare("SELECT id, _json FROM _node WHERE room_id IS NOT NULL AND _json IS NOT NULL").unwrap();
+                let mut rows = stmt.query([]).unwrap();
+                while let Some(r) = rows.next().unwrap() {
+                    let id: Vec<u8> = r.get(0).unwrap();
+                    let json: String = r.get(1).unwrap();
+                    if id.len() != 16 {
+                        continue;
+                    }
+                    if let Ok(v) = serde_json::from_str::<serde_json::Value>(&json) {
+                        if let Some(o) = v.as_object() {
+                            for val in o.values() {
+                                if let Some(t) = val.as_str() {
+                                    if texts.iter().any(|x| x == t) {
+                                        let mut u = [0u8; 16];
+                                        u.copy_from_slice(&id);
+                                        res.insert(t.to_string(), u);
+                                    }
+                                }
+                            }
+                        }
+                    }
+                }
+                res
+            })
+            .await
     }
 
     async fn do_pull(&mut self, s: usize, t: usize, r: u64) -> (String, usize) {
@@ -544,6 +719,9 @@ impl World {
         if self.dead {
             return "dead".into();
         }
+        let mut kvs: Vec<String> = kv.iter().map(|(k, v)| format!("{}={}", k, v)).collect();
+        kvs.sort();
+        self.cur_op = format!("{} {}", kind, kvs.join(" "));
         let r = self.op_inner(kind, kv, stats).await;
         if r.starts_with("timeout") || r.starts_with("barrier-timeout") {
             self.dead = true;
@@ -586,9 +764,10 @@ impl World {
                 let mode = kv.get("mode").map(|x| x.as_str()).unwrap_or("");
                 // `free` (natural schedule: send everything, close, then drain) is not deterministic: only
                 // available to the `race` sub-command, which measures how often it loses the announcement
-                if !["acked", "early"].contains(&mode) && !(mode == "free" && self.allow_free) {
+                if !["acked", "early", "dropped"].contains(&mode) && !(mode == "free" && self.allow_free) {
                     return "bad-op".into();
                 }
+                let keep = get_u(kv, "keep").unwrap_or(0) as usize;
                 let rows = match parse_rows(kv.get("rows").map(|x| x.as_str()).unwrap_or("")) {
                     Some(r) => r,
                     None => return "bad-op".into(),
@@ -605,7 +784,7 @@ impl World {
                         return "skip".into();
                     }
                 }
-                let (st, n) = self.do_stream(s, mode, &rows).await;
+                let (st, n) = self.do_stream(s, mode, keep, &rows).await;
                 stats.inc(&format!("op.stream.{}", mode));
                 self.step_clock();
                 self.observe(s, &st, n).await
@@ -772,10 +951,12 @@ impl World {
         }
         let svc = self.sites[s].inst.svc.clone();
         let mut handles = vec![];
+        let mut room_keys: Vec<Option<(u64, Vec<u8>)>> = vec![];
         for (k, kv) in &todo {
             let svc = svc.clone();
             let n = get_u(kv, "n").unwrap_or(0);
             let tick = self.tick;
+            room_keys.push(None);
             if k == "stream" {
                 let rows = parse_rows(&kv["rows"].replace('.', ":").replace('+', ",")).unwrap();
                 let items: Vec<(String, Vec<(&'static str, String)>)> = rows
@@ -823,6 +1004,7 @@ impl World {
                     self.dummy += 1;
                     let signature_key = derive_key("dummy", &secret_of(1000 + self.dummy, self.case_id));
                     let key = Ed25519SigningKey::create_from(&signature_key).export_verifying_key();
+                    *room_keys.last_mut().unwrap() = Some((r, key.clone()));
                     (
                         "mutate { sys.Room { id:$r authorisations:[{ id:$g users:[{verif_key:$k}] }] } }".to_string(),
                         vec![
@@ -857,11 +1039,14 @@ impl World {
             }
             n_req += n;
         }
-        for ((k, kv), h) in todo.iter().zip(handles) {
+        for (((k, kv), h), rk) in todo.iter().zip(handles).zip(room_keys) {
             n_req += 1;
             stats.inc(&format!("mix.{}", k));
             match h.await {
                 Ok(Ok(ids)) => {
+                    if let Some((r, key)) = rk {
+                        self.room_users.entry(r).or_default().insert(key);
+                    }
                     let n = get_u(kv, "n").unwrap_or(0);
                     match k.as_str() {
                         "new" => created.push((n, ids[0], get_u(kv, "e").unwrap())),
@@ -964,6 +1149,7 @@ impl World {
                 ));
             }
         }
+        self.post_checks(s, &obs, &snap, true);
         self.sites[s].snap = snap;
         format!(
             "{} ev {} | g {}",
